@@ -388,3 +388,15 @@ def run(ctx):
                                  "input": "%s (seed %d, %d frames)" % (d or "stream#%d" % j["sid"], ctx.seed, len(st.aus)),
                                  "command": " && ".join(c.replace(work.dir, "$W") for c in o_["cmds"]),
                                  "observed": obs[:1500], "expected": exp})
+
+
+def replay(ctx, path):
+    """every case is a deterministic function of (seed, tier): a replay re-runs the check with the seed and
+    tier recorded in the replay file (the offending input files are kept next to it for inspection)"""
+    import json
+    d = json.load(open(path))
+    ctx.seed = int(d.get("seed", ctx.seed))
+    ctx.tier = d.get("tier", ctx.tier)
+    ctx.rng = common.Lcg(ctx.seed)
+    run(ctx)
+    return ctx.finish()
